@@ -119,8 +119,9 @@ def gen_case(rng, tier, idx):
                                                     "vol": [1, 3], "ttl": [2, 5]}])
         for s_ in cfg["simulation"]["sessions"]:
             s_["iterationSteps"] = max(s_["iterationSteps"], 25)
-    from ..runnerdrive import add_first_attempts
+    from ..runnerdrive import add_first_attempts, split_extra_targets
 
+    split_extra_targets(rng, cfg, 0.15)
     add_first_attempts(rng, cfg, 0.15)
     return {"drive": "runner", "seed": rng.randrange(1 << 31), "config": cfg, "profile": "halt"}
 
@@ -145,7 +146,7 @@ class C16Monitor:
         self.rules = []
         for name, e in cfg.items():
             if isinstance(e, dict) and e.get("class") == "TradingHaltRule" and name in listed and e.get("enabled", True):
-                self.rules.append({"name": name, "targets": list(e["targetMarkets"]), "rate": e["triggerChangeRate"],
+                self.rules.append({"name": name, "targets": list(e["targetMarkets"]) + list(e.get("extraTargets", [])), "rate": e["triggerChangeRate"],
                                    "L": e["haltingTimeLength"], "k": 0})
         self.halted = {}        # market name -> {"h":, "sess":, "rule":}
         self.unsure = {}        # market name -> (time, rule) of a round that landed on the line
